@@ -965,6 +965,7 @@ pub async fn run(ctx: &Ctx, rep: &mut ShardReport) {
     rep.process_cfg = cache.name().into();
     let mut r = Rng::new(ctx.seed ^ 0xC13 ^ ((ctx.shard as u64) << 24));
     let mut uniq: u128 = 1;
+    let replay = ctx.replay.as_ref().and_then(|p| std::fs::read_to_string(p).ok()).and_then(|t| serde_json::from_str::<Value>(&t).ok());
     let mut k = 0u64;
     let mut rounds = 0u64;
     while ctx.time_left() {
@@ -979,7 +980,10 @@ pub async fn run(ctx: &Ctx, rep: &mut ShardReport) {
         let t_rounds = t0.elapsed().as_millis();
         rep.histories += 2;
         rep.histories_nontrivial += 2;
-        let hseed = ctx.hist_seed(k);
+        let hseed = match replay.as_ref().and_then(|v| v["witness"]["history"].as_u64()) {
+            Some(h) => h,
+            None => ctx.hist_seed(k),
+        };
         k += 1;
         rep.shapes.insert(format!("{:x}", hseed & 0xffff_ffff));
         match differential(hseed, cache, rep).await {
@@ -996,6 +1000,9 @@ pub async fn run(ctx: &Ctx, rep: &mut ShardReport) {
         }
         if std::env::var("VERIF_TRACE").is_ok() {
             eprintln!("loop {k}: rounds {t_rounds} ms, total {} ms", t0.elapsed().as_millis());
+        }
+        if replay.is_some() {
+            break;
         }
     }
     rep.histories += rounds;
